@@ -1,6 +1,6 @@
 (* C14/Properties.v — property theorems only: statement, `exact`, Print Assumptions. *)
 From Coq Require Import ZArith List Bool.
-From C14 Require Import Generated Model Spec Proofs Reflect.
+From C14 Require Import Generated Model ServerModel Spec Proofs Reflect ServerProofs.
 Import ListNotations.
 
 (* the facts the model follows, as regenerated from klongpy/sys_fn_ipc.py on this run *)
@@ -67,6 +67,47 @@ Theorem C14_live_dict_cleanup_refuted : exists s h,
   check_history 3 h = false /\ lst s = LCrash /\
   exists c, nth_error (calls s) 1 = Some c /\ c_pc c = PAwait /\ c_fut c = FUnres.
 Proof. exact race_refuted. Qed.
+
+(* ---- the server half of a request (execute_server_command / run_command_on_klongloop / _listen's dispatch branch) *)
+Definition gen_sflags : sflags := mkSFlags server_wraps_generic_errors server_wraps_keyerror.
+Definition gen_sflags_ok : sfl_ok gen_sflags := conj eq_refl eq_refl.
+
+(* whatever the evaluation does -- value (picklable or not), function, KeyError, KlongException, any other Exception class
+   including the ones Future.set_exception refuses (StopIteration) -- exactly one callback is scheduled on the future loop,
+   it completes result_future exactly once, and the request is followed by a response frame or by a teardown, never by nothing *)
+Theorem C14_server_one_completion : forall o, in_domain o = true ->
+  length (exec_cmd gen_sflags o) = 1 /\ snd (run_command gen_sflags o) = 1 /\ listen_dispatch gen_sflags o <> RxNothing.
+Proof. exact (fun o => server_one_completion gen_sflags o gen_sflags_ok). Qed.
+Print Assumptions C14_server_one_completion.
+
+(* ANY sequence of requests on one connection: every request is answered, or tears the connection down, or arrives after
+   the teardown (then the caller's call fails: C14_drain); none is met with silence *)
+Theorem C14_server_answers_or_closes : forall os, forallb in_domain os = true ->
+  existsb silent (serve gen_sflags os) = false /\ length (serve gen_sflags os) = length os.
+Proof. exact (fun os H => conj (serve_answers_or_closes gen_sflags os gen_sflags_ok H) (serve_length gen_sflags os)). Qed.
+Print Assumptions C14_server_answers_or_closes.
+
+(* the server's reaction is one of the environment steps C14_all quantifies over *)
+Theorem C14_server_reaction_is_env_step : forall o k, in_domain o = true ->
+  reaction_label k (listen_dispatch gen_sflags o) = Some (AResp k true) \/ reaction_label k (listen_dispatch gen_sflags o) = Some ACut.
+Proof. exact (fun o k => server_reaction_is_env_step gen_sflags o k gen_sflags_ok). Qed.
+Print Assumptions C14_server_reaction_is_env_step.
+
+(* handing the caught exception object itself to set_exception is refuted: StopIteration is never stored, the request and
+   every later one on the connection are met with silence *)
+Theorem C14_server_raw_exception_refuted :
+  exists o, in_domain o = true /\ listen_dispatch (mkSFlags false true) o = RxNothing /\
+            serve (mkSFlags false true) [o; OValue true] = [SvNothing; SvStuck].
+Proof. exact raw_generic_handler_refuted. Qed.
+
+(* the boundary of the domain, stated: a BaseException that is not an Exception is caught by neither handler *)
+Theorem C14_server_baseexception_outside_domain : forall fl, listen_dispatch fl (ORaise CBase) = RxNothing.
+Proof. exact base_exception_unanswered. Qed.
+Print Assumptions C14_server_baseexception_outside_domain.
+
+Example C14_server_example :
+  serve gen_sflags [OValue true; OFunction; ORaise CStopIter; OValue true] = [SvResponse false; SvResponse true; SvTeardown; SvClosed].
+Proof. reflexivity. Qed.
 
 (* Non-vacuity. A maximal run of two calls and a close() with responses out of order; R8's leak is reachable. *)
 Example C14_all_example :
